@@ -15,10 +15,10 @@ func init() {
 	register(&propertyDef{
 		id:    "C14",
 		title: "a prepared workflow can be run again and concurrently",
-		rules: []ruleFunc{c14R1, c14R2, c14R3, c14R4},
+		rules: []ruleFunc{c14R1, c14R2, c14R3, c14R4, c14R5},
 		decided: "the run path never writes prepared state: no store, map update or element store whose target belongs to an executableWorkflow, DAGItem, OneOf/OptionalExpression, Lifecycle, Workflow or runnableStep value (R1; the same detector must find the known prepare-time writers, so it cannot pass vacuously); " +
 			"every field of the per-run state is initialised from a fresh allocation, a constant, the caller's arguments or a read-only field of the prepared workflow, the DAG specifically from Clone(), and no mutating graph method is invoked on the prepared DAG (R2); the expression annotations and node data are written only by the tabled prepare functions (R3); " +
-			"(thorough) the pluginsdk schema methods used at run time do not write their receiver (R4).",
+			"(thorough) the pluginsdk schema methods used at run time do not write their receiver (R4). Shared: sub-runs of a prepared workflow get the step context itself, not one a sibling run cancels (R5 = C05.R7).",
 		notDecided: "equality of the results of repeated / overlapping runs (needs runs); isolation inside deployers and plugins.",
 	})
 }
@@ -176,7 +176,7 @@ func c14R1(c *Ctx) {
 // C14.R2 per-run state is fresh.
 func c14R2(c *Ctx) {
 	const rule = "C14.R2"
-	c.explain("C14.R2 in Execute every field of the run state literal is initialised from a fresh allocation (make, &T{}, context.WithCancel), a constant, or a load of a field of the prepared workflow that R1 proves read-only; the dag field from DirectedGraph.Clone() of the prepared DAG; no mutating dgraph method is invoked on a value derived from the prepared DAG")
+	c.explain("C14.R2 in Execute every field of the run state literal is initialised from a fresh allocation (make, &T{}, context.WithCancel), a constant, or a load of a field of the prepared workflow that R1 proves read-only; the dag field from DirectedGraph.Clone() of the prepared DAG; no mutating dgraph method is invoked on a value derived from the prepared DAG; nothing reachable from the prepared workflow (not even via a shallow copy) is stored into the run's data model, whose nested maps the run path writes")
 	ls := c.namedType(pkgWorkflow, "loopState")
 	dagPrepared := c.field(pkgWorkflow, "executableWorkflow", "dag")
 	if ls == nil || dagPrepared == nil {
@@ -217,6 +217,72 @@ func c14R2(c *Ctx) {
 			d, okc := c.freshness(v, f.Name(), dagPrepared)
 			c.verdict(okc, rule, key, c.instrPos(lit), d, "the run state's "+f.Name()+" is "+d+": per-run state shared between runs")
 		}
+	}
+	// R2b deep freshness of the run's mutable data model: nothing reachable from the prepared workflow (not even through a
+	// shallow copy such as maps.Clone) may be stored into it — the run path later writes into the nested maps.
+	dataF := c.fLoop("data")
+	for _, fn := range c.ifaceMethodImpls(pkgWorkflow, "ExecutableWorkflow", "Execute") {
+		isPrepared := func(v ssa.Value) bool {
+			f := loadedField(v)
+			if f == nil {
+				return false
+			}
+			tn := namedOf(baseOfFieldLoad(v).Type())
+			return tn != nil && tn.Name() == "executableWorkflow"
+		}
+		var fromPrepared func(v ssa.Value, d int) bool
+		fromPrepared = func(v ssa.Value, d int) bool {
+			if d > 6 {
+				return false
+			}
+			return derivesFrom(v, func(x ssa.Value) bool {
+				if isPrepared(x) {
+					return true
+				}
+				if call, ok := x.(*ssa.Call); ok && !call.Common().IsInvoke() {
+					for _, a := range call.Common().Args {
+						if fromPrepared(a, d+1) {
+							return true
+						}
+					}
+				}
+				return false
+			})
+		}
+		isDataModel := func(m ssa.Value) bool {
+			return derivesFrom(m, func(x ssa.Value) bool {
+				if loadedField(x) == dataF {
+					return true
+				}
+				if x.Referrers() != nil {
+					for _, ref := range *x.Referrers() {
+						if st, ok := ref.(*ssa.Store); ok && st.Val == x {
+							if fa, ok := st.Addr.(*ssa.FieldAddr); ok && fieldAddrVar(fa) == dataF {
+								return true
+							}
+						}
+					}
+				}
+				return false
+			})
+		}
+		nw := 0
+		cntw := 0
+		eachInstr(fn, func(r instrRef) {
+			mu, ok := r.I.(*ssa.MapUpdate)
+			if !ok || !isDataModel(mu.Map) {
+				return
+			}
+			nw++
+			if bt, isBasic := mu.Value.Type().Underlying().(*types.Basic); isBasic && bt.Kind() != types.UnsafePointer {
+				return
+			}
+			cntw++
+			key := fmt.Sprintf("data-model-store@%s#%d", c.fnName(fn), cntw)
+			c.verdict(!fromPrepared(mu.Value, 0), rule, key, c.instrPos(mu), "the value stored into the run's data model does not come from the prepared workflow",
+				"a value reachable from the prepared workflow (possibly through a shallow copy) is stored into the run's data model, whose nested maps the run path writes: overlapping or repeated runs share step data")
+		})
+		c.minCount(rule, "stores into the run's data model in Execute", nw, 2)
 	}
 	// mutating dgraph methods on the prepared DAG
 	mut := map[string]bool{"ResolveNode": true, "PushStartingNodes": true, "PopReadyNodes": true, "Connect": true, "ConnectDependency": true, "AddNode": true, "Remove": true, "DisconnectInbound": true, "DisconnectOutbound": true}
